@@ -645,7 +645,7 @@ Qed.
 Definition ex_im : imm :=
   [{| ki_kty := "oct"; ki_view := [(asc "k", PStr (asc "c2VjcmV0")); (asc "kty", PStr (asc "oct"))];
       ki_extra := false; ki_valid := true; ki_private := true; ki_tp := asc "THUMBPRINT" |}].
-Definition ex_calls : list call := [CJws true (KSet 0) None "HS256" None None; CAsDict 0 None].
+Definition ex_calls : list call := [CJws true (KSet 0) None "HS256" (ROwn None) None; CAsDict 0 None].
 Definition ex_progs (fixed : bool) := map (compile fixed ex_im (fun _ _ => 0%nat)) ex_calls.
 (* thread 1 (as_dict) tests the empty slot and computes its dict; thread 0
    (sign through the key set) runs up to the end of ensure_kid; thread 1
